@@ -203,8 +203,8 @@ def run(ctx):
                     want = ('ValueError', None)
                 else:
                     exp = {'': 0, 'K': 1, 'M': 2, 'G': 3, 'T': 4}[prefix[:1]]
-                    q = v * 1024 ** exp
-                    want = ('ok', math.ceil(q / 8 if bits else q))
+                    qty = v * 1024 ** exp
+                    want = ('ok', math.ceil(qty / 8 if bits else qty))
             except ValueError:
                 want = ('ValueError', None)
         text = 'image: x.img\nfile format: raw\nvirtual size: %s\ndisk size: %s\ncluster_size: %s\n' % (field, field, field)
